@@ -448,11 +448,13 @@ class MementoFunction(MementoFunctionBase):
                             [rule.describe() for rule in changed_rules],
                         )
                     )
-                elif self._calculated_version is not None:
+                elif self._calculated_version == entry.version:
                     return
                 # Otherwise this instance has not computed a version yet and has no hash rules
-                # that could tell whether the cached version of its name is still valid (and
-                # the cached entry may belong to another definition of that name): compute it
+                # that could tell whether the cached version of its name is still valid, or the
+                # entry was refreshed by another instance of that name (a wrapper, another
+                # definition) while this one still holds a version of an older generation:
+                # compute it
 
         # Otherwise, it needs to be calculated based on code hash and dependencies
         version = self._recompute_version()
